@@ -209,6 +209,10 @@ def main():
             new_fail.append((i, sig, msg))
     for sig, (i, msg) in sorted(known_hits.items()):
         print("KNOWN-FINDING: property=%s %s [%s; witness case #%d: %s]" % (pid, known[sig], sig, i, msg[:200]))
+    # a case explained by a listed finding is not evidence against the model either (the model follows the documented
+    # behaviour there); every other disagreement still counts
+    known_idx = {i for (i, sig, _) in direct_fail if sig in known}
+    bad = [i for i in bad if i not in known_idx]
 
     if new_fail:
         seen = set()
